@@ -131,7 +131,7 @@ class C05(Prop):
                     sid = req.stream_id
                     sub = lib_subs[want_sid] = LSub()
                     sub.sid = sid
-                    sources.append({'tag': tag, 'sid': sid, 'kind': 'lib-request', 'k': frag_count(0, len(body), case['F'], case['lp'], hdr=10), 'frame': None, 'body': tag % 251 if n else None})
+                    sources.append({'tag': tag, 'sid': sid, 'kind': 'lib-request', 'k': frag_count(0, len(body), case['F'], case['lp'], hdr=10), 'frame': None, 'body': tag % 251 if n else None, 'nbytes': len(body)})
                     events.append('e%d:%s' % (sid, ','.join(str(tag * 100 + i) for i in range(sources[-1]['k']))))
                     req.initial_request_n(1).subscribe(sub)
                 else:
@@ -210,10 +210,37 @@ class C05(Prop):
             idx = counters.get(src, 0)
             counters[src] = idx + 1
             wire.append([fr.stream_id, src * 100 + idx])
+        # the receiver's side of the same wire: every fragment is decoded and handed to a real FrameFragmentCache in wire order; what it
+        # puts together per stream must be the frames that were queued, whole ("never merged, truncated or reordered at the receiver")
+        from rsocket.frame_fragment_cache import FrameFragmentCache
+        from rsocket import frame as F
+        cache = FrameFragmentCache()
+        reassembled = {}
+        for (_, dump, fr, raw) in t.sent:
+            try:
+                g = F.parse_or_ignore(fr.serialize())
+                if g is None or not F.is_fragmentable_frame(g):
+                    continue
+                whole = cache.append(g)
+            except Exception as e:
+                reassembled.setdefault(fr.stream_id, []).append(['RAISED:' + type(e).__name__])
+                continue
+            if whole is not None:
+                d, m = bytes(whole.data or b''), bytes(whole.metadata or b'')
+                reassembled.setdefault(whole.stream_id, []).append([len(m), len(d), sorted(set(d + m))[:3]])
+        want_whole = {}
+        for s0 in sources:
+            if s0['kind'] in ('payload', 'complete') and s0['frame'] is not None:
+                d, m = bytes(s0['frame'].data or b''), bytes(s0['frame'].metadata or b'')
+                want_whole.setdefault(s0['sid'], []).append([len(m), len(d), sorted(set(d + m))[:3]])
+            elif s0['kind'] == 'lib-request':
+                n = s0.get('nbytes', 3)
+                want_whole.setdefault(s0['sid'], []).append([0, n, [s0['body']] if s0.get('body') is not None else sorted(set(b'lib'))])
         alive = server._sender_task is not None and not server._sender_task.done()
         qlen = server._send_queue.qsize()
         await server.close()
         return {'events': events, 'wire': wire, 'sources': [{k: v for k, v in s.items() if k != 'frame'} for s in sources],
+                'reassembled': {str(k): v for k, v in reassembled.items()}, 'want_whole': {str(k): v for k, v in want_whole.items()},
                 'sender_alive': alive, 'queue_left': qlen, 'blocked': t.blocked()}
 
     @staticmethod
@@ -301,6 +328,14 @@ class C05(Prop):
             for sid, exp in expected.items():
                 if got.get(sid, []) != exp and not any(f['signature'].startswith('same-stream') for f in fails):
                     fails.append({'signature': 'queued-frame-not-sent', 'what': 'stream %d: after draining, sent %d of %d queued fragments' % (sid, len(got.get(sid, [])), len(exp))})
+        if not any(f['signature'].startswith('same-stream') for f in fails):
+            for sid, got_whole in (obs.get('reassembled') or {}).items():
+                want = (obs.get('want_whole') or {}).get(sid, [])
+                if got_whole != want[:len(got_whole)]:
+                    i = next((j for j, (a, b) in enumerate(zip(got_whole, want)) if a != b), min(len(got_whole), len(want)))
+                    fails.append({'signature': 'frames-merged-or-truncated-at-receiver',
+                                  'what': 'stream %s: a reassembly cache fed with the wire puts together %s, queued were %s (as [metadata bytes, data bytes, byte values]; first difference at frame %d)' % (
+                                      sid, got_whole[i:i + 2], want[i:i + 2], i)})
         if not obs['sender_alive']:
             fails.append({'signature': 'sender-died', 'what': 'the sender task ended during the history'})
         return fails
